@@ -73,7 +73,7 @@ pub fn main(entries: Vec<Entry>, dyn_peers: Vec<(&'static str, rt::registry::Pee
     crate::world::install_panic_hook();
     let args: Vec<String> = std::env::args().skip(1).collect();
     let reg = Reg::new(entries, dyn_peers);
-    let code = match args.first().map(|s| s.as_str()) {
+    let code = crate::world::guarded(|| match args.first().map(|s| s.as_str()) {
         Some("check") => cmd_check(&args[1..], &reg, table),
         Some("replay") => cmd_replay(&args[1..], &reg, table),
         Some("hashes") => cmd_hashes(&args[1..], &reg, table),
@@ -81,6 +81,13 @@ pub fn main(entries: Vec<Entry>, dyn_peers: Vec<(&'static str, rt::registry::Pee
         Some("show") => cmd_show(&args[1..], &reg, table),
         _ => {
             eprintln!("usage: check <PROP> --tier quick|thorough [--seed N] [--runs N] [--workers N] [--evidence F] [--replays D] [--known F]\n       replay <file>\n       hashes <PROP> --seed N --runs N --workers N\n       show <PROP> --seed N --run N");
+            2
+        }
+    });
+    let code = match code {
+        Ok(c) => c,
+        Err(msg) => {
+            println!("HARNESS ERROR: the simulator itself panicked: {msg}");
             2
         }
     };
